@@ -204,6 +204,8 @@ def build(ctx):
         return be.prove_smt(tm.le(X((J,)), S.m_i), hyp, timeout_ms=20000)  # without m_f <= m_i and the consistent boundary row this must fail
 
     obs.append(Obligation("canary.smt", "CANARY (must be refuted): the upper bound without the frac-face lemma and m_f <= m_i", canary, [resv.SSIM], "SMT", expect=be.REFUTED))
+    if ctx.tier == "thorough":
+        obs.append(lean_obligation(ctx, ['pyvc_exists_argmax', 'pyvc_exists_argmin', 'pyvc_interior_row']))
     return obs
 
 
